@@ -16,6 +16,7 @@ RULE = (
     "later steps of H, on the same solver and on a branch taken right after the fault, are judged by M-api against "
     "the stateless reference.  Classes Solver, SolverCacheless, SolverComposite; reuse_z3_solver off and on.  "
     "Non-trivial: a (history, step, k) triple where the fault was actually delivered; distinct by that triple."
+    " Session 4: directed histories with an unsatisfiable group next to a satisfiable one; steps that make more than 8 (quick) / 20 (thorough) checks are faulted at the first three, the last two and a random sample of the other positions."
 )
 ASSUMPTIONS = ["rlimit=1 makes Z3 give up on every check that needs search; checks Z3 decides during preprocessing cannot be faulted that way and are counted as not delivered"]
 
